@@ -13,7 +13,7 @@ from fractions import Fraction
 import z3
 
 from .repo import Repo, Module, Unsupported, strip_docstring
-from .values import (V, Num, Bool, Str, NoneV, NONE, Opt, Tup, Lst, Dct, SetV, SetL, DctL, NDArr, Obj, Opq, Fn, ExcV, ModV,
+from .values import (V, Num, Bool, Str, NoneV, NONE, Opt, Tup, Lst, Dct, SetV, SetL, DctL, NDArr, Ref, Obj, Opq, Fn, ExcV, ModV,
                      truth, is_none, strip_opt, ite, eq, num_pair, fresh_int, fresh_real, fresh_bool,
                      fresh_name, str_lit)
 
@@ -57,15 +57,26 @@ class Path:
         p.env[name] = val
         return p
 
+    def with_heap(self, heap):
+        return Path(self.cond, self.env, self.yields, heap)
+
+    def heap_set(self, ident, attr, val):
+        heap = dict(self.heap or {})
+        obj = dict(heap.get(ident, {}))
+        obj[attr] = val
+        heap[ident] = obj
+        return self.with_heap(heap)
+
 
 _KEEP = []  # keeps assumed ASTs alive so ids stay unique
 
 
 class Outcome:
-    __slots__ = ("kind", "cond", "val", "exc", "line", "yields", "env")
+    __slots__ = ("kind", "cond", "val", "exc", "line", "yields", "env", "heap")
 
-    def __init__(self, kind, cond, val=None, exc=None, line=None, yields=None, env=None):
+    def __init__(self, kind, cond, val=None, exc=None, line=None, yields=None, env=None, heap=None):
         self.kind, self.cond, self.val, self.exc, self.line, self.yields, self.env = kind, list(cond), val, exc, line, yields, env
+        self.heap = heap
 
     def __repr__(self):
         return f"Outcome({self.kind}, exc={self.exc}, line={self.line})"
@@ -175,7 +186,7 @@ class Exec:
         cond = path.cond + ([extra] if extra is not None else [])
         if self.feasible(cond):
             self.outcomes.append(Outcome("raise", cond, exc=exc, line=getattr(node, "lineno", None),
-                                         yields=path.yields, env=path.env))
+                                         yields=path.yields, env=path.env, heap=path.heap))
 
     def implicit(self, path: Path, bad_cond, exc: str, node=None) -> Path:
         """Record an implicit exception when `bad_cond` holds; return the path where it does not."""
@@ -305,6 +316,14 @@ class Exec:
             base, rest = r[1], r[2]
             if base[0] == "class":
                 return Fn("classattr", (base[3], tuple(rest)))
+            if base[0] == "value":
+                val = self.module_constant(base[1], base[2], base[3])
+                for attr in rest:
+                    r = self.getattr(val, attr, Path(), node)
+                    if len(r) != 1:
+                        raise Unsupported(f"member {qual} forks")
+                    val = r[0][1]
+                return val
             raise Unsupported(f"member {qual}")
         # external
         if qual in EXTERNAL_CONSTS:
@@ -343,6 +362,29 @@ class Exec:
             base = base.val
         if isinstance(base, ModV):
             return [(p, self.qual_value(base.qual + "." + attr, node))]
+        if isinstance(base, Ref):
+            fields = (p.heap or {}).get(base.ident, {})
+            if attr in fields:
+                return [(p, fields[attr])]
+            key = f"method:{base.cls}.{attr}"
+            if key in self.handlers:
+                return [(p, Fn("handler-method", (key, base)))]
+            found = self.repo.find_method(base.cls, attr)
+            if found is not None:
+                fm, fnode, fcls, fq = found
+                if any(isinstance(d, ast.Name) and d.id == "property" for d in fnode.decorator_list):
+                    return self.call_repo_function(fm, fnode, [base], {}, p, qual=fq + "." + attr, cls=fq)
+                return [(p, Fn("bound", (base, fm, fnode, fq + "." + attr)))]
+            raise Unsupported(f"{self.module.name}:{node.lineno}: attribute {attr} of {base.cls} instance")
+        if isinstance(base, Fn) and base.kind == "super":
+            selfv, cls = base.data
+            found = self.repo.find_method(cls, attr, skip_first=True)
+            if found is None:
+                if attr == "__init__":
+                    return [(p, Fn("builtin", "noop"))]   # object.__init__
+                raise Unsupported(f"super().{attr}")
+            fm, fnode, fcls, fq = found
+            return [(p, Fn("bound", (selfv, fm, fnode, fq + "." + attr)))]
         if isinstance(base, Obj):
             if attr in base.fields:
                 return [(p, base.fields[attr])]
@@ -356,6 +398,8 @@ class Exec:
             h = self.handlers.get("attr:" + base.cls + "." + attr)
             if h is not None:
                 return h(self, p, [base], {}, node)
+            if f"method:{base.cls}.{attr}" in self.handlers:
+                return [(p, Fn("handler-method", (f"method:{base.cls}.{attr}", base)))]
             raise Unsupported(f"{self.module.name}:{node.lineno}: attribute {attr} of {base.cls}")
         if isinstance(base, Opq):
             h = self.handlers.get("attr:" + base.kind + "." + attr)
@@ -850,7 +894,7 @@ class Exec:
         def at(i):
             sub = self.child()
             sub.implicit_exc = False
-            qs = sub.assign(g.target, seq.at(i), Path(p.cond, p.env), n)
+            qs = sub.assign(g.target, seq.at(i), Path(p.cond, p.env, None, p.heap), n)
             res = [(q2, v) for q in qs for (q2, v) in sub.ev(n.elt, q)]
             if len(res) != 1:
                 # merge
@@ -864,7 +908,7 @@ class Exec:
             # implicit exceptions inside the element expression: checked for a generic index
             i = fresh_int("ci")
             sub = self.child()
-            qs = sub.assign(g.target, seq.at(i), p.fork(i >= 0, i < seq.n), n)
+            qs = sub.assign(g.target, seq.at(i), p.fork(i >= 0, i < seq.n), n)  # p carries the heap
             for q in qs:
                 sub.ev(n.elt, q)
             for o in sub.outcomes:
@@ -894,12 +938,14 @@ class Exec:
         from .calls import do_call
         return do_call(self, n, p)
 
-    def call_repo_function(self, fmod: Module, fnode: ast.FunctionDef, args, kwargs, p: Path, qual=None):
+    def call_repo_function(self, fmod: Module, fnode: ast.FunctionDef, args, kwargs, p: Path, qual=None, cls=None):
         """Inline the real body of a repo function at a call site."""
-        if self.depth > 12:
+        if self.depth > 14:
             raise Unsupported("inlining depth")
         self.trace["inlined"].add(qual or fnode.name)
         env = bind_arguments(self, fmod, fnode, args, kwargs, p)
+        if cls is not None:
+            env["__class__"] = Fn("class", cls)
         sub = self.child(fmod)
         is_gen = any(isinstance(x, (ast.Yield, ast.YieldFrom)) for x in ast.walk(fnode))
         start = Path(p.cond, env, Lst(items=[]) if is_gen else None, p.heap)
@@ -907,10 +953,10 @@ class Exec:
         out = []
         for o in sub.outcomes:
             if o.kind == "return":
-                q = Path(o.cond, p.env, p.yields, p.heap)
+                q = Path(o.cond, p.env, p.yields, o.heap if o.heap is not None else p.heap)
                 out.append((q, o.yields if is_gen else o.val))
             else:
-                self.outcomes.append(Outcome("raise", o.cond, exc=o.exc, line=o.line, yields=p.yields, env=p.env))
+                self.outcomes.append(Outcome("raise", o.cond, exc=o.exc, line=o.line, yields=p.yields, env=p.env, heap=o.heap))
         self.side += sub.side
         return out
 
@@ -919,7 +965,7 @@ class Exec:
         body = strip_docstring(fnode.body)
         rest = self.run_block(body, [path])
         for q in rest:  # fell off the end: return None
-            self.outcomes.append(Outcome("return", q.cond, val=NONE, yields=q.yields, env=q.env,
+            self.outcomes.append(Outcome("return", q.cond, val=NONE, yields=q.yields, env=q.env, heap=q.heap,
                                          line=getattr(fnode, "end_lineno", None)))
 
     def run_block(self, stmts, paths):
@@ -1054,18 +1100,18 @@ class Exec:
 
     def st_Return(self, n, p):
         if n.value is None:
-            self.outcomes.append(Outcome("return", p.cond, val=NONE, line=n.lineno, yields=p.yields, env=p.env))
+            self.outcomes.append(Outcome("return", p.cond, val=NONE, line=n.lineno, yields=p.yields, env=p.env, heap=p.heap))
             return []
         for p1, v in self.ev(n.value, p):
-            self.outcomes.append(Outcome("return", p1.cond, val=v, line=n.lineno, yields=p1.yields, env=p1.env))
+            self.outcomes.append(Outcome("return", p1.cond, val=v, line=n.lineno, yields=p1.yields, env=p1.env, heap=p1.heap))
         return []
 
     def st_Break(self, n, p):
-        self.outcomes.append(Outcome("break", p.cond, line=n.lineno, yields=p.yields, env=p.env))
+        self.outcomes.append(Outcome("break", p.cond, line=n.lineno, yields=p.yields, env=p.env, heap=p.heap))
         return []
 
     def st_Continue(self, n, p):
-        self.outcomes.append(Outcome("continue", p.cond, line=n.lineno, yields=p.yields, env=p.env))
+        self.outcomes.append(Outcome("continue", p.cond, line=n.lineno, yields=p.yields, env=p.env, heap=p.heap))
         return []
 
     def st_Assert(self, n, p):
@@ -1157,7 +1203,7 @@ def bind_arguments(ex: Exec, fmod: Module, fnode, args, kwargs, p: Path, closure
 CONSTANT_HANDLERS = {"uuid.NAMESPACE_DNS"}
 BUILTIN_NAMES = {"len", "min", "max", "abs", "int", "float", "bool", "str", "isinstance", "any", "all", "next", "set",
                  "list", "dict", "tuple", "zip", "enumerate", "range", "sum", "hasattr", "getattr", "iter", "sorted",
-                 "round", "print", "repr", "id", "hash", "type", "super", "reversed", "map", "filter",
+                 "round", "print", "repr", "id", "hash", "type", "super", "reversed", "map", "filter", "noop",
                  # contract-language builtins
                  "forall", "exists", "implies", "old", "distinct"}
 BUILTIN_EXC = {"ValueError", "KeyError", "TypeError", "IndexError", "NotImplementedError", "AssertionError",
